@@ -111,7 +111,7 @@ def main():
             if ln.startswith("P "):
                 scripted[0] += 1
                 if ln.strip() != "P ok":
-                    chk.violation("scripted|" + ("incomplete-request-accepted" if "without daughter level" in ln else "verdict-depends-on-history|failed-gA-table-load"), ln[2:].strip()[:300], {"detail": ln})
+                    chk.violation("scripted|" + ("not-a-label-resolves" if "not mode labels" in ln else "incomplete-request-accepted" if "without daughter level" in ln else "verdict-depends-on-history|failed-gA-table-load"), ln[2:].strip()[:300], {"detail": ln})
                 continue
             parts = ln.split(" ", 4)
             if len(parts) < 4 or not parts[0].isdigit():
